@@ -53,7 +53,10 @@ for c in sorted(os.listdir(src)):
         ok = conf.get("applies") and conf["stock_suite_with_patch"].startswith("pass") and conf["demo_with_patch"]=="fail" and conf["demo_without_patch"]=="pass"
         if not ok: print("NOT KEPT",sid,conf); continue
         out=os.path.join(dst,sid); os.makedirs(out,exist_ok=True)
+        old={}
+        if os.path.exists(os.path.join(out,"meta.json")): old=json.load(open(os.path.join(out,"meta.json")))
         for f in ("patch.diff","demo_test.rs","demo_test.patch","notes.md"):
+            if f=="patch.diff" and old.get("rebased"): continue  # keep a patch that was re-created against the repaired tree
             if os.path.exists(os.path.join(d,f)): shutil.copy(os.path.join(d,f),out)
         what,needs=DESC.get(sid,("",""))
         old={}
